@@ -3,7 +3,7 @@
 # Confirms in a scratch worktree: the change compiles, the existing suite still passes with it,
 # the demonstration fails with it and passes without it. Prints one JSON line.
 WT="$1"; PATCH="$2"; DEMO="$3"; NAME="$4"
-export CARGO_NET_OFFLINE=true
+export CARGO_NET_OFFLINE=true CARGO_INCREMENTAL=0 CARGO_PROFILE_DEV_DEBUG=0 CARGO_PROFILE_TEST_DEBUG=0
 cd "$WT" || exit 2
 git checkout -q -- . ; rm -f tests/seeded_demo.rs
 git apply "$PATCH" || { echo "{\"name\":\"$NAME\",\"error\":\"patch does not apply\"}"; exit 2; }
